@@ -514,7 +514,7 @@ func init() {
 	drv.Register(&drv.Prop{
 		ID: "C12", Level: "fault_enumeration", Parallel: 12, Batch: 1, MinConclusive: 40,
 		Rule: "sequences of stream ends on 2-6 vBuckets: each transient cause (state changed, disconnected, too slow, backfill failed, socket closed by dropping the DCP connection), each final cause (ok, closed, filter empty, lost privileges, unknown status), " +
-			"repeated transient ends of one vBucket, ends while others still stream, a re-request held in flight while all other vBuckets end for good, all vBuckets ending for good in every order, finite mode with items arriving after the high seqno was sampled. " +
+			"repeated transient ends of one vBucket, ends while others still stream, a re-request held in flight while all other vBuckets end for good, all vBuckets ending for good in every order, finite mode with items arriving after the high seqno was sampled; rebalances with ends in flight, incl. a close confirmation whose handling is held up across the reopen. " +
 			"Oracle: per-vBucket state machine over STREAM_END sent / STREAM_REQ received (re-request from the tracked tuple; none after a final end), Start() returns on its own iff every assigned vBucket ended for good, cbgo_active_stream_current == assigned - finally ended at quiescent scrapes, finite mode delivers exactly the items <= sampled high seqno. " +
 			"Non-trivial: a sequence containing both a transient and a final end (or a repeated transient end); distinct = distinct abstract traces",
 		Assumptions: []string{"cbsim ends streams with the scripted status codes; gocbcore maps them to the error values the library inspects"},
